@@ -112,10 +112,11 @@ class Preds:
             # two different literals cannot both equal the same symbolic string
             for (x, y), w in list(self.eqs.items()):
                 if (x, y) != key:
-                    la = [t for t in key if t.startswith("lit:")]
-                    lb = [t for t in (x, y) if t.startswith("lit:")]
-                    sa = [t for t in key if not t.startswith("lit:")]
-                    sb = [t for t in (x, y) if not t.startswith("lit:")]
+                    empty = S().key()       # the empty string is a literal too
+                    la = [t for t in key if t.startswith("lit:") or t == empty]
+                    lb = [t for t in (x, y) if t.startswith("lit:") or t == empty]
+                    sa = [t for t in key if not (t.startswith("lit:") or t == empty)]
+                    sb = [t for t in (x, y) if not (t.startswith("lit:") or t == empty)]
                     if la and lb and la != lb and sa == sb and len(sa) == 1:
                         self.ex.add_axiom(z3.Not(z3.And(v, w)))
         return self.eqs[key]
@@ -560,3 +561,206 @@ def check_uri_encode_byte(rep):
     rep.states += len(paths)
     rep.transitions += ex.queries + len(paths)
     return bad, len(paths)
+
+
+# --------------------------------------------------------------------------------------------------
+# SigV2: create_string_to_sign (sig_v2/methods.rs) on symbolic headers / query pairs
+# --------------------------------------------------------------------------------------------------
+V2_SUBRESOURCES = ["acl", "delete", "lifecycle", "location", "logging", "notification", "partNumber", "policy", "requestPayment",
+                   "response-cache-control", "response-content-disposition", "response-content-encoding", "response-content-language",
+                   "response-content-type", "response-expires", "torrent", "uploadId", "uploads", "versionId", "versioning", "versions",
+                   "website"]        # AWS "Signing and authenticating REST requests" (SigV2), CanonicalizedResource
+V2_SINGLE = ["content-md5", "content-type", "date", "x-amz-date"]
+
+
+def _v2_job(job):
+    mode, vh, nq, nh = job[:4]
+    domain = job[4] if len(job) > 4 else None      # quick tier: query names range over these sub-resources (+ any other name)
+    prog = rsx.Program()
+    prog.load(src("crates/s3s/src/sig_v2/methods.rs"), "sig_v2::methods")
+    f = prog.find_fn("create_string_to_sign")
+    if f is None:
+        return {"error": "create_string_to_sign not found"}
+    qs = [(sym("qn%d" % i), sym("qv%d" % i)) for i in range(nq)]
+    hs = [(sym("hn%d" % i), sym("hv%d" % i)) for i in range(nh)]
+    holder = {}
+
+    def amz(ex, P, n):
+        """z3 Bool: the header name starts with "x-amz-"; tied to the literal comparisons made on the same name"""
+        b = ex.bool_of(Term("amz_prefix", n.key()))
+        seen = holder.setdefault("amz", {})
+        if n.key() not in seen:
+            for k2, (n2, b2) in list(seen.items()):
+                e = P.eq(n, n2)             # congruence: equal names have the same prefix
+                if e is True:
+                    ex.add_axiom(b == b2)
+                elif e is not False:
+                    ex.add_axiom(z3.Implies(e, b == b2))
+            seen[n.key()] = (n, b)
+        for L in V2_SINGLE + [""]:
+            e = P.eq(n, lit(L))
+            if not isinstance(e, bool):
+                ex.add_axiom(z3.Implies(e, b if L.startswith("x-amz-") else z3.Not(b)))
+        return b
+
+    def extra_call(ex, path, args, node):
+        return NotImplemented
+
+    ex, P = make_executor(prog, extra_call)
+    base_method_hook = ex.method_hook
+
+    def unique(pairs, name):
+        """get_unique: the value of the only pair with that name (contract of OrderedHeaders / OrderedQs, decided by their Kani harnesses)"""
+        hit = [v for n, v in pairs if ex.decide(P.eq(n, name))]
+        return some(hit[0]) if len(hit) == 1 else none()
+
+    def method_hook(ex_, recv, name, args, node):
+        r0 = deref(recv)
+        if isinstance(r0, Struct) and r0.name in ("__Headers", "__Qs"):
+            pairs = hs if r0.name == "__Headers" else qs
+            if name == "get_unique":
+                a = deref(args[0])
+                return unique(pairs, lit(a) if isinstance(a, str) else a)
+            if name == "get_all":
+                a = deref(args[0])
+                a = lit(a) if isinstance(a, str) else a
+                return ListV([v for n, v in pairs if ex.decide(P.eq(n, a))])
+            if name == "as_ref":
+                return ListV([TupleV([n, v]) for n, v in pairs])
+        if isinstance(r0, ListV) and name == "next":
+            if not r0.elems:
+                return none()
+            return some(r0.elems.pop(0))
+        if isinstance(r0, S):
+            if name == "starts_with":
+                a = deref(args[0])
+                a = a.pieces[0][1] if isinstance(a, S) and len(a.pieces) == 1 and a.pieces[0][0] == "lit" else a
+                if a == "x-amz-":
+                    return Z(amz(ex, P, r0))
+                raise rsx.Unsupported("starts_with(%r) on a symbolic string" % (a,))
+            if name == "is_empty":
+                e = P.eq(r0, S())
+                return e if isinstance(e, bool) else Z(e)
+        if isinstance(r0, Variant) and r0.name == "None" and name == "unwrap_or_default":
+            return S()
+        if isinstance(r0, Variant) and r0.name == "Some" and name == "unwrap_or_default":
+            return r0.payload[0]
+        return base_method_hook(ex_, recv, name, args, node)
+    ex.method_hook = method_hook
+    base_const = ex.const_hook
+
+    def const_hook(ex_, p):
+        if p.split("::")[-1] == "INCLUDED_QUERY":
+            c = prog.consts.get("INCLUDED_QUERY")
+            node = c
+            while node.get("k") in ("Ref", "Paren"):
+                node = node["e"]
+            if node.get("k") != "Array":
+                raise rsx.Unsupported("INCLUDED_QUERY is not an array literal")
+            return ListV([lit(x["v"]) for x in node["elems"]])
+        return base_const(ex_, p)
+    ex.const_hook = const_hook
+    # bounds stated in the evidence: names ascending (OrderedHeaders invariant); query names pairwise distinct; the single-valued
+    # headers occur at most once
+    for i in range(nh):
+        for j in range(i + 1, nh):
+            ex.add_axiom(P.le(hs[i][0], hs[j][0]))
+            for L in V2_SINGLE:
+                a, b = P.eq(hs[i][0], lit(L)), P.eq(hs[j][0], lit(L))
+                ex.add_axiom(z3.Not(z3.And(a, b)))
+    for i in range(nq):
+        for j in range(i + 1, nq):
+            e = P.eq(qs[i][0], qs[j][0])
+            if not isinstance(e, bool):
+                ex.add_axiom(z3.Not(e))
+        if domain is not None:
+            for L in V2_SUBRESOURCES:
+                if L not in domain:
+                    ex.add_axiom(z3.Not(P.eq(qs[i][0], lit(L))))
+
+    def mk():
+        return [Const("Mode::" + mode), Term("method"), sym("path"), some(Struct("__Qs", {})) if nq or mode == "PresignedUrl" else none(),
+                Struct("__Headers", {}), some(sym("bucket")) if vh else none()]
+    paths = ex.explore(f, mk, "sig_v2::methods")
+
+    def spec(o):
+        def single(name):
+            hit = [v for n, v in hs if o.ask(P.eq(n, lit(name)))]
+            return hit[0] if len(hit) == 1 else S()
+        out = sym("method") + lit("\n") + single("content-md5") + lit("\n") + single("content-type") + lit("\n")
+        if mode == "HeaderAuth":
+            has_amz_date = any(o.ask(P.eq(n, lit("x-amz-date"))) for n, _ in hs)
+            out = out + (S() if has_amz_date else single("date")) + lit("\n")
+        else:
+            hit = [v for n, v in qs if o.ask(P.eq(n, lit("Expires")))]
+            out = out + (hit[0] if len(hit) == 1 else S()) + lit("\n")
+        groups = []
+        for n, v in hs:                     # already in ascending name order
+            if not o.ask(amz(ex, P, n)):
+                continue
+            if groups and o.ask(P.eq(groups[-1][0], n)):
+                groups[-1][1].append(v)
+            else:
+                groups.append((n, [v]))
+        for n, vs in groups:
+            out = out + n + lit(":")
+            for k, v in enumerate(vs):
+                out = out + (lit(",") if k else S()) + fn("trim", v)
+            out = out + lit("\n")
+        if vh:
+            out = out + lit("/") + sym("bucket")
+        out = out + sym("path")
+        subs = []
+        for n, v in qs:
+            for L in V2_SUBRESOURCES:
+                if o.ask(P.eq(n, lit(L))):
+                    subs.append((L, v))
+        subs.sort(key=lambda x: x[0])
+        for k, (L, v) in enumerate(subs):
+            out = out + lit("&" if k else "?") + lit(L)
+            if not o.ask(P.eq(v, S())):
+                out = out + lit("=") + v
+        return out
+    problems = {}
+    checks = 0
+    for p in paths:
+        if p.panic:
+            problems.setdefault("v2:string-to-sign:panic", "create_string_to_sign can panic: %s" % p.panic)
+            continue
+        got = deref(p.ret)
+        for pc2, want in eval_spec(ex, P, p.pc, spec):
+            checks += 1
+            if got.key() != want.key():
+                problems.setdefault("v2:string-to-sign", "create_string_to_sign(%s, vh=%s, q=%d, h=%d) builds %s where the specification prescribes %s under %s" % (
+                    mode, vh, nq, nh, got.key()[:400], want.key()[:400], [str(c) for c in pc2 if "eq!" in str(c) and "Not" not in str(c)][-6:]))
+    return {"paths": len(paths), "checks": checks, "queries": ex.queries, "problems": problems, "line": (f["line"], f["end_line"])}
+
+
+def check_v2_string_to_sign(rep, tier="quick"):
+    import multiprocessing as mp
+    if tier == "quick":
+        from vlib import seed
+        k = seed() % len(V2_SUBRESOURCES)
+        dom = tuple(sorted({V2_SUBRESOURCES[(k + 7 * i) % len(V2_SUBRESOURCES)] for i in range(4)} | {"torrent"}))
+        jobs = [("HeaderAuth", False, 2, 0, dom), ("HeaderAuth", False, 1, 1), ("HeaderAuth", False, 0, 3), ("HeaderAuth", True, 1, 1, dom),
+                ("PresignedUrl", False, 1, 1, dom), ("PresignedUrl", True, 2, 0, dom), ("PresignedUrl", True, 0, 2)]
+    else:
+        jobs = [(mode, vh, nq, nh) for mode in ("HeaderAuth", "PresignedUrl") for vh in (False, True)
+                for nq, nh in [(2, 0), (2, 1), (1, 2), (0, 3), (0, 4)]]
+    with mp.get_context("fork").Pool(min(12, len(jobs))) as pool:
+        outs = pool.map(_v2_job, jobs, chunksize=1)
+    problems = {}
+    n_paths = 0
+    for job, o in zip(jobs, outs):
+        if o.get("error"):
+            raise Inconclusive(o["error"])
+        n_paths += o["paths"]
+        rep.transitions += o["queries"] + o["checks"]
+        for k, v in o["problems"].items():
+            problems.setdefault(k, v)
+    rep.states += n_paths
+    rep.encoded("crates/s3s/src/sig_v2/methods.rs", "create_string_to_sign", "%d-%d" % outs[0]["line"])
+    if tier == "quick":
+        rep.bound("V2 string to sign, quick tier: in the jobs with two query pairs the names range over the sub-resources %s (chosen by VERIF_SEED) "
+                  "and every name outside the list; the thorough tier lets them range over all 22" % (list(dom),))
+    return problems, n_paths
